@@ -113,7 +113,53 @@ def gen_events(ctx):
             outs=[dict(seq=codes(s), q=codes(q or "")) for _, s, q in outs],
             a=c5, b=c3, qt=(mode != "none"), ns=ns, base=base,
             reported=res.json["basepair_counts"]["quality_trimmed"] or 0)
-    ctx.extra["event_counts"] = dict(small_scope=n_small, random=n_rand, nextseq=n_ns, cli=n_cli)
+    # (v) paired-end runs: -q applies to both mates unless -Q is given; reported per mate
+    n_pe = 15 if ctx.quick else 200
+    for k in range(n_pe):
+        def mk(r):
+            n = rng.randint(0, 20)
+            seq = "".join(rng.choice("ACGTG") for _ in range(n))
+            qs = "".join(chr(33 + rng.choice((1, 3, 8, 10, 12, 20, 25, 35))) for _ in range(n))
+            return (f"p{r}", seq, qs)
+        nr = rng.randint(1, 7)
+        r1 = [mk(r) for r in range(nr)]
+        r2 = [mk(r) for r in range(nr)]
+        ns = rng.choice((-1, -1, 15))
+        c5, c3 = rng.choice((0, 5, 10)), rng.choice((5, 10, 20))
+        mode2 = rng.choice(("same", "Q", "Q0"))
+        argv = ["-q", f"{c5},{c3}"]
+        d5, d3, qt2 = c5, c3, True
+        if mode2 == "Q":
+            d5, d3 = rng.choice((0, 8)), rng.choice((6, 12, 25))
+            argv += ["-Q", f"{d5},{d3}"]
+        elif mode2 == "Q0":
+            argv += ["-Q", "0"]
+            qt2 = False
+        if ns >= 0:
+            argv += ["--nextseq-trim", str(ns)]
+        interleaved_out = rng.random() < 0.3
+        argv += ["--json", "rep.json", "-o", "o1.fastq"] + (["--interleaved"] if interleaved_out else ["-p", "o2.fastq"])
+        argv += ["i1.fastq", "i2.fastq"]
+        res = run_cli(argv, {"i1.fastq": fastq_bytes(r1), "i2.fastq": fastq_bytes(r2)}, os.path.join(ctx.scratch, "cli"))
+        if res.exit != 0 or res.json is None or "o1.fastq" not in res.files:
+            ctx.violation("CommandLineRunSucceeds", "C13:cli-run-failed",
+                          dict(argv=argv, exit=res.exit, errors=res.errors[:3], exc=repr(res.exception)))
+            continue
+        _, o1 = parse_records(res.files["o1.fastq"])
+        if interleaved_out:
+            o1, o2 = o1[0::2], o1[1::2]
+        else:
+            _, o2 = parse_records(res.files["o2.fastq"])
+        bp = res.json["basepair_counts"]
+        for reads, outs, a, b, qt, rep in ((r1, o1, c5, c3, True, bp["quality_trimmed_read1"]),
+                                          (r2, o2, d5, d3, qt2, bp["quality_trimmed_read2"])):
+            add(f="qrun", argv=" ".join(argv),
+                reads=[dict(seq=codes(s_), q=codes(q)) for _, s_, q in reads],
+                outs=[dict(seq=codes(s_), q=codes(q or "")) for _, s_, q in outs],
+                a=a, b=b, qt=qt, ns=ns, base=33, reported=rep or 0)
+        add(f="qsum", parts=[bp["quality_trimmed_read1"] or 0, bp["quality_trimmed_read2"] or 0],
+            total=bp["quality_trimmed"] or 0)
+    ctx.extra["event_counts"] = dict(small_scope=n_small, random=n_rand, nextseq=n_ns, cli=n_cli, cli_paired=n_pe)
     return ev
 
 
